@@ -427,7 +427,7 @@ def run(facts, tier, ctx):
                 "the same object and the field is never reassigned" % (C.id, fld, aid))
 
     def idset(ors):
-        return set((o[0], o[1], o[2]) if o[0] in ("param", "local") else (o[0], o[1]) for o in ors)
+        return set((o[0], o[1], o[2].replace("*", "")) if o[0] in ("param", "local") else (o[0], o[1]) for o in ors)
 
     mods = set(b.module.split("::")[0] for b in [entry] + R.feeders)
     ed = run_errdisc(facts, "ERRDISC/par", "no Result<_, SourceError|EncodeError> in the par module is unwrapped, "
